@@ -503,8 +503,15 @@ static void gen_pw(hctx* h) {
 /* (2) scenario-level fault enumeration                                                        */
 /* ------------------------------------------------------------------------------------------ */
 
-enum { SCN_SCHEMA = 0, SCN_WRITE = 1, SCN_READ = 2, SCN_BATCH = 3, SCN_PARSE = 4 };
-static const char* const scn_names[] = {"schema", "write", "read", "batch", "parse"};
+enum { SCN_SCHEMA = 0, SCN_WRITE = 1, SCN_READ = 2, SCN_BATCH = 3, SCN_PARSE = 4,
+       SCN_DICT = 5, SCN_DSKIP = 6, SCN_DBATCH = 7, SCN_DSTATS = 8, SCN_BLOOM = 9, SCN_STATSB = 10, SCN_PGIDX = 11,
+       SCN_SCHEMAG = 12, SCN_WREP = 13, SCN_COUNT = 14 };
+static const char* const scn_names[] = {"schema", "write", "read", "batch", "parse",
+    "dict", "dskip", "dbatch", "dstats", "bloom", "statsb", "pgidx", "schemag", "wrep"};
+/* scenarios whose "same effect" is (also) equality of the digest with the one of the fault-free run */
+static int scn_uses_base(int scn) { return scn == SCN_DSTATS || scn == SCN_BLOOM || scn == SCN_STATSB || scn == SCN_PGIDX || scn == SCN_WREP; }
+/* scenarios reading the hand-built file */
+static int scn_is_dict(int scn) { return scn >= SCN_DICT && scn <= SCN_DSTATS; }
 enum { MODE_FREAD = 0, MODE_MMAP = 1, MODE_BUFFER = 2 };
 
 typedef struct {
@@ -620,11 +627,16 @@ static uint64_t table_digest(uint64_t tseed, int rows, int rg) {
 }
 
 /* ---- result record passed from the child to the parent ---- */
-#define MAXCALLS 96
+#define MAXCALLS 200
 typedef struct {
     int done;
     long nreq, fired_at;
     int ncalls; unsigned char st[MAXCALLS];
+    unsigned short rq[MAXCALLS];   /* allocation requests made during each recorded call */
+    long rq_seen;                  /* requests seen when the previous call was recorded */
+    unsigned char kind[MAXCALLS];  /* which API call (CK_*), 0 = implied by the scenario */
+    int arg[MAXCALLS], res[MAXCALLS];   /* its argument and its result, where they matter to the model */
+    int naux; long aux[4];         /* scenario facts the request-count model needs (sizes computed fault-free before arming) */
     int err;           /* index of the first call that reported an error, -1 if none */
     int same;          /* 1 same effect as intended / as the fault-free run, 0 different, 2 not applicable (error reported) */
     int leak;
@@ -633,11 +645,19 @@ typedef struct {
 } case_res;
 
 static case_res* R;    /* in the child: the record being filled */
-static void call_rec(int failed) {
-    if (R->ncalls < MAXCALLS) R->st[R->ncalls] = (unsigned char)(failed ? 1 : 0);
+enum { CK_NONE = 0, CK_OPEN = 1, CK_GET_COLUMN = 2, CK_READ = 3, CK_SKIP = 4 };
+static void call_recx(int failed, int kind, long arg, long res) {
+    long seen = h_alloc_seen();
+    if (R->ncalls < MAXCALLS) {
+        R->kind[R->ncalls] = (unsigned char)kind; R->arg[R->ncalls] = (int)arg; R->res[R->ncalls] = (int)res;
+        R->st[R->ncalls] = (unsigned char)(failed ? 1 : 0);
+        R->rq[R->ncalls] = (unsigned short)(seen - R->rq_seen > 65535 ? 65535 : seen - R->rq_seen);
+    }
+    R->rq_seen = seen;
     if (failed && R->err < 0) R->err = R->ncalls;
     R->ncalls++;
 }
+static void call_rec(int failed) { call_recx(failed, CK_NONE, 0, 0); }
 
 /* ---- schema handle used by write scenarios ---- */
 static carquet_schema_t* scn_build_schema(const scn_params* p, int record) {
@@ -785,7 +805,7 @@ static int file_digest(const char* path, int mode, const uint8_t* buf, size_t bu
     for (int g = 0; g < p->rg; g++) for (int c = 0; c < NCOLS; c++) expect_nn[g][c] = table_nonnull(p->tseed, p->rows, g, c);
     if (record) scn_arm(p);      /* the harness's own preparations above are not counted */
     carquet_reader_t* r = scn_open(path, mode, buf, buflen, &err);
-    if (record) call_rec(r == NULL);
+    if (record) call_recx(r == NULL, CK_OPEN, mode, r ? (r->mmap_info != NULL) : 0);
     if (!r) { ok = 0; goto done; }
     if (carquet_reader_num_columns(r) != NCOLS || carquet_reader_num_row_groups(r) != p->rg) ok = 0;
     const carquet_schema_t* sc = carquet_reader_schema(r);
@@ -806,7 +826,7 @@ static int file_digest(const char* path, int mode, const uint8_t* buf, size_t bu
         d = fnv_u64(d, (uint64_t)p->rows);
         for (int c = 0; ok && c < NCOLS; c++) {
             carquet_column_reader_t* cr = carquet_reader_get_column(r, g, c, &err);
-            if (record) call_rec(cr == NULL);
+            if (record) call_recx(cr == NULL, CK_GET_COLUMN, g * NCOLS + c, 0);
             if (!cr) { ok = 0; break; }
             /* read the chunk the way a client does: call read_batch until the column is exhausted.  A call may
              * deliver fewer values than asked for (e.g. a page load failed after partial progress); the next call
@@ -817,7 +837,7 @@ static int file_digest(const char* path, int mode, const uint8_t* buf, size_t bu
             uint64_t dl = fnv_init(), dv = fnv_init();
             while (n < p->rows && carquet_column_has_next(cr) && calls++ < 64) {
                 int64_t got = carquet_column_read_batch(cr, vals, cap - n, col_opt[c] ? defs : NULL, NULL);
-                if (record) call_rec(got < 0);
+                if (record) call_recx(got < 0, CK_READ, cap - n, got);
                 if (got <= 0) { if (got < 0) n = -1; break; }
                 int nn = (int)got;
                 if (col_opt[c]) { dl = fnv_add(dl, defs, 2 * (size_t)got); nn = 0; for (int64_t i = 0; i < got; i++) nn += defs[i] == 1; }
@@ -985,6 +1005,8 @@ static void scn_parse(const scn_params* p) {
     free(footer);
 }
 
+#include "ops_alloc_ext.h"
+
 /* ---- running one case in a child ---------------------------------------------------------- */
 static char g_err_path[256];
 static int g_leak_check = 1;     /* child: consult LeakSanitizer at the end of this case? */
@@ -999,6 +1021,15 @@ static void child_body(const scn_params* p, case_res* r) {
     case SCN_READ: scn_read(p); break;
     case SCN_BATCH: scn_batch(p); break;
     case SCN_PARSE: scn_parse(p); break;
+    case SCN_DICT: scn_dict_cols(p, 0); break;
+    case SCN_DSKIP: scn_dict_cols(p, 1); break;
+    case SCN_DBATCH: scn_dict_batch(p); break;
+    case SCN_DSTATS: scn_dict_stats(p); break;
+    case SCN_BLOOM: scn_bloom(p); break;
+    case SCN_STATSB: scn_statsb(p); break;
+    case SCN_PGIDX: scn_pgidx(p); break;
+    case SCN_SCHEMAG: scn_schemag(p); break;
+    case SCN_WREP: scn_wrep(p); break;
     default: break;
     }
     r->fired_at = h_alloc_first_fired_at;
@@ -1179,6 +1210,69 @@ static void fault_site(char* fn_out, size_t cap, const char** via) {
     }
 }
 
+/* the column chunks a read scenario works on, as the page-by-page reader model needs them:
+ * per chunk  flags, pages, then per page  rows, non-null values, dictionary-encoded?
+ * flags: 1 BYTE_ARRAY, 2 fixed width without levels (PLAIN pages can be views), 4 has a dictionary page (dictionary_page_offset
+ * set), 8 has definition levels, 16 dictionary page at data_page_offset (no dictionary_page_offset) */
+static void print_chunks(FILE* f, const scn_params* p) {
+    if (p->scn == SCN_READ || p->scn == SCN_BATCH) {
+        fprintf(f, " ch=");
+        int first = 1;
+        for (int g = 0; g < p->rg; g++) for (int c = 0; c < NCOLS; c++) {
+            int flags = (col_types[c] == CARQUET_PHYSICAL_BYTE_ARRAY ? 1 : 0) |
+                        (!col_opt[c] && col_types[c] != CARQUET_PHYSICAL_BYTE_ARRAY && col_types[c] != CARQUET_PHYSICAL_BOOLEAN ? 2 : 0) |
+                        (col_opt[c] ? 8 : 0);
+            int nbat = p->nb > 1 ? p->nb : 1, np = 0;
+            for (int bi = 0; bi < nbat; bi++) if (p->rows * (bi + 1) / nbat > p->rows * bi / nbat) np++;
+            fprintf(f, "%s%d,%d", first ? "" : ",", flags, np); first = 0;
+            for (int bi = 0; bi < nbat; bi++) {
+                int r0 = p->rows * bi / nbat, r1 = p->rows * (bi + 1) / nbat;
+                if (r1 > r0) fprintf(f, ",%d,0,0", r1 - r0);
+            }
+        }
+    } else if (p->scn == SCN_WRITE && p->rg <= 4) {
+        /* non-null values per write_batch call, in call order (g, column, slice) */
+        fprintf(f, " wt=");
+        int first = 1;
+        for (int g = 0; g < p->rg; g++) {
+            table_t t; table_make(&t, p->tseed, p->rows, g);
+            const int16_t* defs[NCOLS] = {NULL, t.d1, t.d2, t.d3, NULL, NULL, NULL};
+            int nbat = p->nb > 1 ? p->nb : 1;
+            for (int c = 0; c < NCOLS; c++) for (int bi = 0; bi < nbat; bi++) {
+                int r0 = p->rows * bi / nbat, r1 = p->rows * (bi + 1) / nbat;
+                if (r1 == r0) continue;
+                int nn = r1 - r0;
+                if (defs[c]) { nn = 0; for (int i = r0; i < r1; i++) nn += defs[c][i] == 1; }
+                fprintf(f, "%s%d,%d", first ? "" : ",", r1 - r0, nn); first = 0;
+            }
+            table_free(&t);
+        }
+    } else if (p->scn == SCN_WREP) {
+        int n1 = 0, n2 = 0;
+        wrep_counts(p->tseed, p->rows, &n1, &n2);
+        fprintf(f, " wt=%d,%d", n1, n2);
+    } else if (p->scn == SCN_DICT || p->scn == SCN_DSKIP || p->scn == SCN_DBATCH) {
+        fprintf(f, " ch=");
+        int first = 1;
+        for (int g = 0; g < p->rg; g++) for (int c = 0; c < DCOLS; c++) {
+            dchunk k; dchunk_make(&k, p->tseed, p->rows, g, c);
+            int flags = (dcols[c].type == CARQUET_PHYSICAL_BYTE_ARRAY ? 1 : 0) |
+                        (dcols[c].max_def == 0 && dcols[c].type != CARQUET_PHYSICAL_BYTE_ARRAY ? 2 : 0) | (dcols[c].dict && c != 3 ? 4 : 0) |
+                        (dcols[c].max_def > 0 ? 8 : 0) | (dcols[c].dict && c == 3 ? 16 : 0);
+            int np = 0;
+            for (int pi = 0; pi < p->nb; pi++) { int r0, r1; dpage_rows(p->rows, p->nb, pi, &r0, &r1); if (r1 > r0) np++; }
+            fprintf(f, "%s%d,%d", first ? "" : ",", flags, np); first = 0;
+            for (int pi = 0; pi < p->nb; pi++) {
+                int r0, r1; dpage_rows(p->rows, p->nb, pi, &r0, &r1);
+                if (r1 == r0) continue;
+                int nn = 0; for (int i = r0; i < r1; i++) nn += k.defs[i] == dcols[c].max_def;
+                fprintf(f, ",%d,%d,%d", r1 - r0, nn, dcols[c].dict);
+            }
+            dchunk_free(&k);
+        }
+    }
+}
+
 static long g_K;
 static long st_cases, st_fired, st_err, st_oksame, st_crash, st_badsame, st_leak;
 
@@ -1186,6 +1280,7 @@ static void cb_print(hctx* h, const scn_params* p, int idx, int crashed, const c
     (void)idx;
     fprintf(h->out, "alloc_scn scn=%s codec=%d mode=%d rows=%d rg=%d shape=%d nb=%d tseed=%llu cleanup=%d lvl=%d k=%ld",
             scn_names[p->scn], p->codec, p->mode, p->rows, p->rg, p->shape, p->nb, (unsigned long long)p->tseed, p->cleanup, p->lvl, p->k);
+    print_chunks(h->out, p);
     char csite[256] = "-", fn[256] = "-"; const char* via = "-";
     fault_site(fn, sizeof fn, &via);
     st_cases++;
@@ -1196,12 +1291,23 @@ static void cb_print(hctx* h, const scn_params* p, int idx, int crashed, const c
         h->n_lines++; st_crash++; st_fired += g_fault.at != 0;
         return;
     }
-    const case_res r = *rp;
-    long st[MAXCALLS]; int nc = r.ncalls < MAXCALLS ? r.ncalls : MAXCALLS;
-    for (int i = 0; i < nc; i++) st[i] = r.st[i];
+    case_res r = *rp;
+    long st[MAXCALLS], rq[MAXCALLS]; int nc = r.ncalls < MAXCALLS ? r.ncalls : MAXCALLS;
+    for (int i = 0; i < nc; i++) { st[i] = r.st[i]; rq[i] = r.rq[i]; }
     int fired = r.fired_at != 0;
-    int p_same = (r.err >= 0) || r.same == 1;
+    /* effect = digest of the fault-free run, for the scenarios that are judged that way */
+    if (scn_uses_base(p->scn) && r.err < 0 && r.same == 1 && r.digest != g_base_digest) r.same = 0;
+    /* an error was reported (and nothing delivered before it was wrong), or the effect is the fault-free one */
+    int p_same = r.same == 1 || (r.err >= 0 && r.same == 2);
     fprintf(h->out, " | K=%ld fired=%d calls=", g_K, fired); print_list(h->out, st, nc);
+    fprintf(h->out, " rq="); print_list(h->out, rq, nc);
+    {
+        int any = 0; long ck[MAXCALLS], ca[MAXCALLS], cr[MAXCALLS];
+        for (int i = 0; i < nc; i++) { ck[i] = r.kind[i]; ca[i] = r.arg[i]; cr[i] = r.res[i]; any |= r.kind[i] != 0; }
+        if (r.naux > 0) { fprintf(h->out, " aux="); print_list(h->out, r.aux, r.naux > 4 ? 4 : r.naux); }
+        if (any) { fprintf(h->out, " ck="); print_list(h->out, ck, nc); fprintf(h->out, " ca="); print_list(h->out, ca, nc);
+                   fprintf(h->out, " cr="); print_list(h->out, cr, nc); }
+    }
     fprintf(h->out, " err=%d same=%d crash=0 leak=%d nreq=%ld fn=%s via=%s csite=- p_nocrash=1 p_noleak=%d p_same_effect=%d\n",
             r.err, r.same, r.leak, r.nreq, fn, via, !r.leak, p_same);
     h->n_lines++;
@@ -1226,6 +1332,25 @@ static int prepare_input(hctx* h, const scn_params* p) {
     return got == (size_t)n;
 }
 
+/* build the hand-built dictionary file (rows, rg, nb = data pages per chunk, codec), store it as the input of the
+ * read scenarios and check that it reads back fault-free to the intended table */
+static int prepare_dict_input(hctx* h, const scn_params* p) {
+    size_t n = 0;
+    uint8_t* file = dfile_build(p->tseed, p->rows, p->rg, p->nb, p->codec, &n);
+    if (!file) return 0;
+    FILE* f = fopen(g_in_path, "wb");
+    if (!f) { free(file); return 0; }
+    size_t w = fwrite(file, 1, n, f);
+    fclose(f);
+    free(g_in_buf);
+    g_in_buf = file; g_in_len = n;
+    if (w != n) return 0;
+    scn_params q = *p; q.scn = SCN_DICT; q.k = 0; q.lvl = 0; q.mode = MODE_BUFFER;
+    case_res r;
+    int crashed = run_case(h, &q, &r);
+    return !crashed && r.err < 0 && r.same == 1;
+}
+
 static void flush_stats(hctx* h, const char* tag) {
     fprintf(h->out, "#stat cases_%s %ld\n#stat fired_%s %ld\n#stat err_%s %ld\n#stat oksame_%s %ld\n#stat crash_%s %ld\n#stat badsame_%s %ld\n#stat leak_%s %ld\n",
             tag, st_cases, tag, st_fired, tag, st_err, tag, st_oksame, tag, st_crash, tag, st_badsame, tag, st_leak);
@@ -1238,10 +1363,11 @@ static void enumerate(hctx* h, scn_params p, long kmax_cap) {
     p.k = 0;
     char tag[96];
     snprintf(tag, sizeof tag, "%s_c%d_m%d_l%d%s%s%s", scn_names[p.scn], p.codec, p.mode, p.lvl,
-             p.nb > 1 ? "_multipage" : "", p.shape > 0 && p.scn == SCN_WRITE ? "_longnames" : "", p.rows > 500 ? "_bigpage" : "");
+             p.nb > 1 && !scn_is_dict(p.scn) ? "_multipage" : "", p.shape > 0 && p.scn == SCN_WRITE ? "_longnames" : "", p.rows > 500 ? "_bigpage" : "");
     if (p.scn == SCN_BATCH) g_base_digest = batch_table_digest(p.tseed, p.rows, p.rg);
     int crashed = run_case(h, &p, &base);
     g_K = crashed ? 0 : base.nreq;
+    if (scn_uses_base(p.scn)) g_base_digest = crashed ? 0 : base.digest;
     long kmax = g_K;
     if (kmax_cap && kmax > kmax_cap) kmax = kmax_cap;
     scn_params* list = (scn_params*)h_alloc(sizeof(scn_params) * (size_t)(kmax + 1));
@@ -1358,6 +1484,59 @@ static void gen_scn(hctx* h) {
             } else fprintf(h->out, "#stat base_failed_parse 1\n");
         }
     }
+    /* ---- second wave: sites that carquet's own writer/reader pair does not reach ---- */
+    /* hand-built file: dictionary pages, nested group, several pages per chunk, CRCs, the footer fields carquet never writes */
+    {
+        scn_params q; memset(&q, 0, sizeof q);
+        q.tseed = p.tseed; q.rg = 2;
+        int flip = (int)h_below(h, 2);
+        for (int ci = 0; ci < 2; ci++) {
+            q.codec = ci; q.nb = 2 + (int)h_below(h, 2); q.rows = 10 + (int)h_below(h, 9); q.lvl = 0;
+            if (!prepare_dict_input(h, &q)) { fprintf(h->out, "#stat prepare_failed_dict_c%d 1\n", ci); continue; }
+            for (int mode = 0; mode < 3; mode++) {
+                q.mode = mode; q.lvl = 0;
+                if (!h->thorough && ((mode + flip) & 1) != ci && mode != 2 - 2 * ci) continue;   /* quick: two modes per codec */
+                q.scn = SCN_DICT; enumerate(h, q, 0);
+                q.scn = SCN_DSKIP; enumerate(h, q, 0);
+                q.scn = SCN_DBATCH; enumerate(h, q, 0);
+                if (h->thorough || mode == 2 - 2 * ci) {
+                    q.scn = SCN_DSTATS; enumerate(h, q, 0);
+                    q.lvl = 1; enumerate(h, q, 0);                /* every arena request of the footer parse */
+                    if (h->thorough) { q.scn = SCN_DICT; enumerate(h, q, 0); q.scn = SCN_DBATCH; enumerate(h, q, 0); }
+                    q.lvl = 0;
+                }
+            }
+        }
+    }
+    /* metadata builders that have no file behind them */
+    {
+        scn_params q; memset(&q, 0, sizeof q);
+        q.tseed = p.tseed; q.rg = 1;
+        q.scn = SCN_BLOOM; q.rows = 20 + (int)h_below(h, 30);
+        for (q.mode = 0; q.mode < 2; q.mode++) { q.shape = (int)h_below(h, 40); enumerate(h, q, 0); }
+        q.mode = 0;
+        q.scn = SCN_STATSB; q.rows = 5 + (int)h_below(h, 20);
+        static const int lefts[] = {0, 3, 8, 12, 17, 24, 40, 5000};
+        for (int i = 0; i < 8; i++) { q.shape = lefts[i]; q.lvl = 0; enumerate(h, q, 0); if (i == 7) { q.lvl = 1; enumerate(h, q, 0); } }
+        q.lvl = 0; q.shape = 0;
+        q.scn = SCN_PGIDX; q.rows = 34 + (int)h_below(h, 12);
+        for (q.mode = 0; q.mode < 2; q.mode++) enumerate(h, q, 0);
+        q.mode = 0;
+        q.scn = SCN_SCHEMAG; q.rows = (int)h_below(h, 10); q.shape = 900 + (int)h_below(h, 200);
+        for (q.lvl = 0; q.lvl < 2; q.lvl++) enumerate(h, q, q.lvl ? 12 : 0);
+        q.lvl = 0; q.shape = 0;
+    }
+    /* write side: REPEATED column (repetition-level appends), groups in the schema */
+    {
+        scn_params q; memset(&q, 0, sizeof q);
+        q.tseed = p.tseed; q.scn = SCN_WREP; q.rg = 2; q.rows = 9 + (int)h_below(h, 8);
+        for (int ci = 0; ci < 2; ci++) {
+            q.codec = ci; q.nb = ci ? 3 : 1; q.lvl = 0;
+            snprintf(g_tmp_path, sizeof g_tmp_path, "%s", outp);
+            enumerate(h, q, 0);
+            if (ci == 0) { q.lvl = 1; enumerate(h, q, 0); }
+        }
+    }
     unlink(g_err_path); unlink(g_in_path); unlink(outp);
     free(g_in_buf); g_in_buf = NULL;
 }
@@ -1399,7 +1578,7 @@ static void gen_alloc(hctx* h) {
     gen_scn(h);
 }
 
-static int scn_of(const char* s) { for (int i = 0; i < 5; i++) if (!strcmp(s, scn_names[i])) return i; return -1; }
+static int scn_of(const char* s) { for (int i = 0; i < SCN_COUNT; i++) if (!strcmp(s, scn_names[i])) return i; return -1; }
 
 static int replay_alloc(hctx* h, const h_line* l) {
     size_t n, nf;
@@ -1452,6 +1631,10 @@ static int replay_alloc(hctx* h, const h_line* l) {
         char outp[256]; snprintf(outp, sizeof outp, "/tmp/verif_alloc_%d_out.parquet", (int)getpid());
         snprintf(g_tmp_path, sizeof g_tmp_path, "%s", outp);
         long K = 0;
+        if (scn_is_dict(p.scn)) {
+            if (p.nb < 1 || p.nb > 8 || p.codec < 0 || p.codec > 1) return 0;
+            if (!prepare_dict_input(h, &p)) { fprintf(stderr, "replay: cannot prepare the hand-built input file\n"); return 0; }
+        }
         if (p.scn == SCN_READ || p.scn == SCN_BATCH || p.scn == SCN_PARSE) {
             scn_params q = p; if (p.scn == SCN_PARSE) q.shape = 0;
             if (!prepare_input(h, &q)) { fprintf(stderr, "replay: cannot prepare the input file\n"); return 0; }
@@ -1462,7 +1645,7 @@ static int replay_alloc(hctx* h, const h_line* l) {
             case_res b; scn_params q = p; q.shape = 60000; q.k = 0; g_base_digest = 0;
             if (run_case(h, &q, &b) == 0) g_base_digest = b.digest;
         }
-        { case_res b; scn_params q = p; q.k = 0; if (run_case(h, &q, &b) == 0) K = b.nreq; }
+        { case_res b; scn_params q = p; q.k = 0; if (run_case(h, &q, &b) == 0) { K = b.nreq; if (scn_uses_base(p.scn)) g_base_digest = b.digest; } }
         g_K = K;
         run_list(h, &p, 1, cb_print, 1);
         if (!getenv("VERIF_ALLOC_KEEP")) unlink(g_err_path);
